@@ -82,8 +82,12 @@ let header_fields (h : header) : string =
       (issue_daytime_fields h) in
   let call = outcome_str hex_of_nl (callsign h) in
   let nat = outcome_str (fun b -> if b then "1" else "0") (is_national h) in
-  Printf.sprintf "%s %d %d org=%s evt=%s locs=%s dur=%s iss=%s call=%s nat=%s"
-    text (int_of_n h.h_parity) (int_of_n h.h_voting) org evt locs dur iss call nat
+  (* MessageHeader::originator(): the decoded originator, from the ORG field and the callsign *)
+  let orig = match originator_str h, callsign h with
+    | Done o, Done c -> hex_of_nl (originator_from_org_and_call o c)
+    | Panic s, _ | _, Panic s -> Printf.sprintf "PANIC%d" (int_of_n s) in
+  Printf.sprintf "%s %d %d org=%s evt=%s locs=%s dur=%s iss=%s call=%s nat=%s orig=%s"
+    text (int_of_n h.h_parity) (int_of_n h.h_voting) org evt locs dur iss call nat orig
 
 let msg_result_str (r : msg_result) : string =
   match r with
